@@ -88,7 +88,9 @@ theorem mp_connectBestChainT (hP : MainPred P) (s : State) (b : Block) (h : P s)
         · cases he
         · split at he
           · cases he
-          · exact mp_reorgToT hP s b _ h e he
+          · split at he
+            · cases he
+            · exact mp_reorgToT hP s b _ h e he
 
 theorem mp_maybeAcceptBlockT (hP : MainPred P) (s : State) (b : Block) (h : P s) :
     ∀ e ∈ maybeAcceptBlockT s b, P e.2 := by
